@@ -1313,6 +1313,16 @@ def _tanh(a, out=None):
     return _out(map1(f, _obj(a)), out, "tanh")
 
 
+@H("log1p")
+def _log1p(a, out=None):
+    return _out(map1(lambda x: alg.log(alg.ONE + x), _obj(a)), out, "log1p")
+
+
+@H("expm1")
+def _expm1(a, out=None):
+    return _out(map1(lambda x: alg.exp(x) - alg.ONE, _obj(a)), out, "expm1")
+
+
 @H("tan")
 def _tan(a, out=None):
     return _out(map1(lambda x: alg.sin(x) * alg.inv(alg.cos(x)), _obj(a)), out, "tan")
